@@ -156,6 +156,8 @@ def st_case(draw):
     spec["units"] = 1.0
     if draw(st.sampled_from([False, False, False, True])):
         spec["Tn_int"] = True   # an integer nucleation temperature, as a user would type it (Tn=100)
+    if draw(st.sampled_from([False, False, True])):
+        spec["guess_int"] = True   # phase locations typed as integers (integer-dtype Fields), e.g. Fields([0, 200])
     mode = draw(st.sampled_from(["direct", "direct", "manager", "history"]))
     case = {"spec": spec, "mode": mode, "temps": draw(st_temps()),
             "cont": [_r(draw(st.floats(2.0, 9.0)), 3) for _ in range(4)]}
@@ -297,7 +299,9 @@ def build(case, v):
         dT = V.derivativeSettings.temperatureVariationScale * case["tol"] ** 0.25
         return th, cf, V, case["tol"], dT, Tn, err
     V, model, cf = zp.configured_potential(spec)
-    th = WallGo.Thermodynamics(V, (int(Tn) if spec.get("Tn_int") else float(Tn)), WallGo.Fields(cf.phase("low", Tn)), WallGo.Fields(cf.phase("high", Tn)))
+    th = WallGo.Thermodynamics(V, (int(Tn) if spec.get("Tn_int") else float(Tn)),
+                               WallGo.Fields(zp.int_guess(cf.phase("low", Tn), spec)),
+                               WallGo.Fields(zp.int_guess(cf.phase("high", Tn), spec)))
     th.freeEnergyHigh.disableAdaptiveInterpolation()
     th.freeEnergyLow.disableAdaptiveInterpolation()
     try:
